@@ -16,7 +16,7 @@ Theorem C04_certificate_optimal : forall n m k c Aub bub Aeq beq x lam,
   dotn n c x == dual_obj m k bub beq lam ->
   (forall x', primal_feasible n m k Aub bub Aeq beq x' -> dotn n c x' <= dotn n c x) /\
   (forall lam', dual_feasible n m k c Aub Aeq lam' -> dual_obj m k bub beq lam <= dual_obj m k bub beq lam').
-Proof. intros. split; [eapply certificate_optimal|eapply certificate_dual_optimal]; eauto. Qed.
+Proof. exact certificate_optimal_both. Qed.
 Print Assumptions C04_certificate_optimal.
 
 (* the initial tableau satisfies the self-certifying invariant and has a non-negative right-hand side *)
